@@ -210,7 +210,7 @@ fn scenario_detail(sc : &Scenario, obs : &Obs, extra : Vec<(&str, J)>) -> J
         ("preparation", J::strs(&sc.run.world.ops)),
         ("final_op", J::Str(format!("{:?}", sc.final_op))),
         ("verdict", J::Str(obs.verdict.short())),
-        ("schedule_choices", J::Arr(obs.report.choices.iter().map(|c| J::i(*c as usize)).collect())),
+        ("schedule_choices", J::Str(obs.report.choices.iter().map(|c| format!("{}", c)).collect::<Vec<String>>().join(" "))),
     ];
     pairs.extend(extra);
     J::obj(pairs)
